@@ -11,7 +11,7 @@ from common import ModelError, R, Rmat, flmat, max_rel_err
 
 from common import wiring_pre_build as pre_build  # noqa: E402,F401
 
-LEAN_MODULES = ["PyomaVerif.Props.C03", "PyomaVerif.Props.C01", "PyomaVerif.Props.WiringRun", "PyomaVerif.Props.C03C11", "PyomaVerif.Props.C03E2E", "PyomaVerif.Props.C03Split"]
+LEAN_MODULES = ["PyomaVerif.Props.C03", "PyomaVerif.Props.C01", "PyomaVerif.Props.WiringRun", "PyomaVerif.Props.C03C11", "PyomaVerif.Props.C03E2E", "PyomaVerif.Props.C03Split", "PyomaVerif.Mutants.MsGather"]
 THEOREMS = [
     # the split composed with the identification: user's datasets + ref_ind -> pre_multisetup -> what SSI_multi_setup hands to
     # build_hank -> C03_e2e_* (Props/C03Split.lean, Lemmas/MsGather.lean, Model/MsGather.lean); "after every preprocessing step"
@@ -26,6 +26,11 @@ THEOREMS = [
     "PV.C03Split.DatRec.ok",
     "PV.C03Split.Ex.recovered",
     "PV.C03Split.ExD.recovered",
+    "PV.Mutants.MsGather.none_ok",
+    "PV.Mutants.MsGather.firstRefs_fails",
+    "PV.Mutants.MsGather.sortedRefs_fails",
+    "PV.Mutants.MsGather.firstCols_fails",
+    "PV.Mutants.MsGather.movFirst_fails",
     "PV.MsGather.preMultisetupRec_ok",
     "PV.MsGather.vstack_gather",
     "PV.MsGather.preSplit_eq_foldl",
